@@ -284,8 +284,12 @@ impl CostModel {
                 json![{
                     Self::FEATURE: json![name],
                     Self::WEIGHT: json![weight],
-                    Self::VEHICLE_RATE: json![veh_rate],
-                    Self::NETWORK_RATE: json![net_rate],
+                    // some rate variants (combined, edge-pair lookup) have no JSON representation;
+                    // describe those by their debug text instead of panicking in json![]
+                    Self::VEHICLE_RATE: serde_json::to_value(veh_rate)
+                        .unwrap_or_else(|_| json![format!("{:?}", veh_rate)]),
+                    Self::NETWORK_RATE: serde_json::to_value(net_rate)
+                        .unwrap_or_else(|_| json![format!("{:?}", net_rate)]),
                 }],
             );
         }
